@@ -1447,7 +1447,8 @@ impl Formatter {
     if self.html {
       format!("<span class=\"mech-comment\"><span class=\"mech-comment-sigil\">--</span>{}</span>", comment_text)
     } else {
-      format!("{}\n",comment_text)
+      // keep the sigil: without it the comment's words become code
+      format!(" --{}\n",comment_text)
     }
   }
 
